@@ -44,7 +44,7 @@ pub fn run(args: &[String]) {
     let ev: ChemicalComposition = pairs.clone().into();
     let em: ChemicalComposition = ev.clone().into_map();
     let comps = (v, m, ev, em);
-    println!("{}", json!({"comp": [["C", 0, 2], ["C", 13, 5], ["H", 0, 7], ["Cl", 37, 3], ["Ac", 0, 4], ["Uuo", 0, 6], ["H+", 0, 8]]}));
+    if mode != "exhc" { println!("{}", json!({"comp": [["C", 0, 2], ["C", 13, 5], ["H", 0, 7], ["Cl", 37, 3], ["Ac", 0, 4], ["Uuo", 0, 6], ["H+", 0, 8]]})); }
     match mode {
         "pairs" => {
             // every (element, isotope-or-none) pair of the table: render, parse back, serde round trip
@@ -65,6 +65,42 @@ pub fn run(args: &[String]) {
                     let de = parse_out(guarded(|| serde_json::from_str::<ElementSpecification>(&js).map_err(|_| ElementSpecificationParsingError::UnknownElement)));
                     println!("{}", json!({"id": id, "pair": [s, i], "text": text, "back": back, "json": js, "de": de}));
                     id += 1;
+                }
+            }
+        }
+        "exhc" => {
+            // compact lines for the extracted evaluator.  seed 0: every string of length <= n; seed k in 1..=19: the strings of
+            // length exactly n that start with ALPHABET[k-1]
+            use std::io::Write;
+            let stdout = std::io::stdout();
+            let mut out = std::io::BufWriter::with_capacity(1 << 20, stdout.lock());
+            let cps = |t: &str, sep: &str| t.chars().map(|c| (c as u32).to_string()).collect::<Vec<_>>().join(sep);
+            writeln!(out, "COMP {}", [("C", 0, 2), ("C", 13, 5), ("H", 0, 7), ("Cl", 37, 3), ("Ac", 0, 4), ("Uuo", 0, 6), ("H+", 0, 8)].iter()
+                .map(|(s, i, n)| format!("{}:{}:{}", cps(s, "."), i, n)).collect::<Vec<_>>().join(";")).unwrap();
+            let enc = |o: &Value| -> String {
+                if o == "panic" { return "P".to_string(); }
+                if let Some(e) = o.get("err") { return format!("E{}", e); }
+                format!("O{}:{}", cps(o["ok"][0].as_str().unwrap(), "."), o["ok"][1])
+            };
+            let a = ALPHABET.len();
+            let (lens, first): (Vec<usize>, Option<usize>) =
+                if seed == 0 { ((0..=n).collect(), None) } else { (vec![n], Some(seed as usize - 1)) };
+            for len in lens {
+                let free = if first.is_some() { len - 1 } else { len };
+                let total = (a as u64).pow(free as u32);
+                for mut code in 0..total {
+                    let mut idx = vec![0usize; free];
+                    for q in (0..free).rev() { idx[q] = (code % a as u64) as usize; code /= a as u64; }
+                    let mut s = String::new();
+                    if let Some(f) = first { s.push(ALPHABET[f]); }
+                    for i in idx { s.push(ALPHABET[i]); }
+                    let p1 = parse_out(guarded(|| ElementSpecification::parse(&s)));
+                    let p2 = parse_out(guarded(|| s.parse::<ElementSpecification>()));
+                    let p3 = parse_out(guarded(|| ElementSpecification::parse_with(&s, &PERIODIC_TABLE)));
+                    let p4 = parse_out(guarded(|| HELPER.parse_element(&s)));
+                    let ps = if p1 == p2 && p2 == p3 && p3 == p4 { enc(&p1) } else { [&p1, &p2, &p3, &p4].iter().map(|p| enc(p)).collect::<Vec<_>>().join(";") };
+                    let rs = reads(&s, &comps.0, &comps.1, &comps.2, &comps.3).iter().map(|z| z.to_string()).collect::<Vec<_>>().join(",");
+                    writeln!(out, "{}|{}|{}", cps(&s, ","), ps, rs).unwrap();
                 }
             }
         }
